@@ -27,7 +27,7 @@ PermRel(F2, F1, N) == \A i \in 1..Size(N) : F2[PermIdx(i, N)] = F1[i]
 
 \* ---------- lattice step with per-axis boundary kinds ----------
 \* bk[a+1] in {"wrap", "open", "pec-", "pec+", "pec2"}: wrap padding; zero padding; zero padding + PEC wall layer
-\* on the min / max / both faces.  lay = <<axis (0..2) or -1, kappa>>: a one-cell absorbing layer on the min face of `axis`
+\* on the min / max / both faces.  lay: face -> kappa (Faces below; 0 = no layer): a one-cell absorbing layer on that face
 \* whose correction is kappa * derivative (memoryless stand-in for step_cpml, same index plumbing).
 Ghost(F, i, a, d, N, bk) ==       \* entry one cell away along axis a (1..3), integer-valued fields
     LET q == Coord(i, N, a) + d
@@ -37,7 +37,16 @@ Ghost(F, i, a, d, N, bk) ==       \* entry one cell away along axis a (1..3), in
 DF(F, i, p, a, N, bk) == Ghost(F, At(i, p, N), a + 1,  1, N, bk) - F[At(i, p, N)]     \* forward  d_a F_p
 DB(F, i, p, a, N, bk) == F[At(i, p, N)] - Ghost(F, At(i, p, N), a + 1, -1, N, bk)     \* backward d_a F_p
 
-InLayer(i, N, lay) == lay[1] >= 0 /\ Coord(i, N, lay[1] + 1) = 0
+\* faces <<axis 0..2, side>>; pi acts on faces through their axis: min_x -> min_y -> min_z -> min_x (same for max)
+Faces == { << a, sd >> : a \in 0..2, sd \in {"-", "+"} }
+NoLayers == [ f \in Faces |-> 0 ]
+PermFace(f) == << Pi(f[1]), f[2] >>
+\* per-face parameter table of the relabelled scene: new[pi(f)] = old[f]
+PermFaceFn(L) == [ f \in Faces |-> L[<< (f[1] + 2) % 3, f[2] >>] ]
+InFace(i, N, f) == IF f[2] = "-" THEN Coord(i, N, f[1] + 1) = 0 ELSE Coord(i, N, f[1] + 1) = N[f[1] + 1] - 1
+\* the parameter the implementation looks up for face f (BoundaryConfig.get_*_dict: one explicit entry per face);
+\* variant "face_table": the min_y entry reads the min_x field
+KappaOf(L, f, variant) == IF variant = "face_table" /\ f = << 1, "-" >> THEN L[<< 0, "-" >>] ELSE L[f]
 \* the per-axis branch of the layer loop: which derivative pair <<d_a F_j, d_a F_i>> is used for layer axis a.
 \* variant "pml_branch": the a = 1 branch returns the pair in the wrong order
 LayerPair(a, variant) ==       \* as <<component of d_field_1, component of d_field_2>>, both derivatives along a
@@ -54,14 +63,19 @@ CurlPlain(F, i, N, bk, fwd, variant) ==
              (IF variant = "curl_y" THEN Dd(F, i, 2, 0, N, bk, fwd) - Dd(F, i, 0, 2, N, bk, fwd)
               ELSE Dd(F, i, 0, 2, N, bk, fwd) - Dd(F, i, 2, 0, N, bk, fwd))             \* dzFx - dxFz
         ELSE Dd(F, i, 1, 0, N, bk, fwd) - Dd(F, i, 0, 1, N, bk, fwd)                    \* dxFy - dyFx
+FaceCorr(F, i, N, bk, kap, a, fwd, variant) ==
+    LET pr == LayerPair(a, variant)
+        p  == Comp(i, N)
+    IN  IF p = (a + 1) % 3 THEN -(kap * Dd(F, i, pr[1], a, N, bk, fwd))        \* curl[i] -= corr_1
+        ELSE IF p = (a + 2) % 3 THEN kap * Dd(F, i, pr[2], a, N, bk, fwd)      \* curl[j] += corr_2
+        ELSE 0
+FaceTerm(F, i, N, bk, lay, f, fwd, variant) ==
+    IF InFace(i, N, f) /\ KappaOf(lay, f, variant) # 0 THEN FaceCorr(F, i, N, bk, KappaOf(lay, f, variant), f[1], fwd, variant) ELSE 0
+\* the loop over the absorbing-layer objects: one term per face
 LayerCorr(F, i, N, bk, lay, fwd, variant) ==
-    IF ~InLayer(i, N, lay) THEN 0
-    ELSE LET a  == lay[1]
-             pr == LayerPair(a, variant)
-             p  == Comp(i, N)
-         IN  IF p = (a + 1) % 3 THEN -(lay[2] * Dd(F, i, pr[1], a, N, bk, fwd))        \* curl[i] -= corr_1
-             ELSE IF p = (a + 2) % 3 THEN lay[2] * Dd(F, i, pr[2], a, N, bk, fwd)      \* curl[j] += corr_2
-             ELSE 0
+    FaceTerm(F, i, N, bk, lay, << 0, "-" >>, fwd, variant) + FaceTerm(F, i, N, bk, lay, << 0, "+" >>, fwd, variant)
+  + FaceTerm(F, i, N, bk, lay, << 1, "-" >>, fwd, variant) + FaceTerm(F, i, N, bk, lay, << 1, "+" >>, fwd, variant)
+  + FaceTerm(F, i, N, bk, lay, << 2, "-" >>, fwd, variant) + FaceTerm(F, i, N, bk, lay, << 2, "+" >>, fwd, variant)
 Curl(F, i, N, bk, lay, fwd, variant) == CurlPlain(F, i, N, bk, fwd, variant) + LayerCorr(F, i, N, bk, lay, fwd, variant)
 
 \* PEC wall layer: tangential E components are zeroed after the E update (explicit per-axis table of pec.py;
